@@ -184,6 +184,11 @@ func introspectRemoteSchema(factory QueryerFactory, url string) (*ast.Schema, er
 			continue
 		}
 
+		// a truncated type reference cannot be converted
+		if err := checkTypeRefs(IntrospectionQueryFullType{Name: "@" + directive.Name, InputFields: directive.Args}); err != nil {
+			return nil, err
+		}
+
 		// the list of directive locations
 		var locations []ast.DirectiveLocation
 		for _, value := range directive.Locations {
